@@ -3,7 +3,8 @@
    Model: Codec/C26Compare.v (NumberTypeImpl_.Compare, DecimalType_.Compare, CompareNulls). *)
 From Coq Require Import ZArith Bool List.
 Import ListNotations.
-From GMS Require Import Codec.C25Arith Codec.C27Convert Codec.C26Compare Codec.C26CompareProofs.
+From GMS Require Import Codec.C25Arith Codec.C27Convert Codec.C27Enum Codec.C26Compare Codec.C26CompareProofs.
+From GMS Require Import Codec.C32Json Codec.C32JsonCompare.
 Open Scope Z_scope.
 
 (* for every integer type (all widths, signed / unsigned), DECIMAL (column and non-column), DATE, DATETIME(p),
@@ -100,6 +101,36 @@ Example C26_temporal_nonvacuous :
   days_from_civil 1970 1 1 = 0 /\ days_from_civil 2000 3 1 = 11017.
 Proof. exact nonvacuous_temporal. Qed.
 Print Assumptions C26_temporal_nonvacuous.
+
+(* ENUM (by index; values that are not members sort first), SET (by bit mask) and BIT (by value) are ordered by the
+   keys of Codec/C27Enum.v through the same [compare]; the laws above cover them.  Their keys on valid values: *)
+Theorem C26_enum_set_bit_order_is_by_value :
+  forall n a b,
+    compare (CEnum n) (CX (TNum a)) (CX (TNum b)) = sgn_cmp (key_enum n a) (key_enum n b) /\
+    compare (CSet n) (CX (TNum a)) (CX (TNum b)) = sgn_cmp (key_set n a) (key_set n b) /\
+    compare (CBit n) (CX (TNum a)) (CX (TNum b)) = sgn_cmp (key_bit n a) (key_bit n b).
+Proof. intros n a b. repeat split. Qed.
+Print Assumptions C26_enum_set_bit_order_is_by_value.
+
+(* JSON: the comparison of the C32 model (types.CompareJSON: type precedence, then structural, objects compared on
+   their byte-wise sorted form) is a total preorder whose equality is equality of the sorted documents
+   (definitions and proofs of Codec/C32Json.v / C32JsonCompare.v, re-stated here) *)
+Theorem C26_json_compare_reflexive : forall a, compare_json a a = Eq.
+Proof. exact compare_json_refl. Qed.
+Print Assumptions C26_json_compare_reflexive.
+
+Theorem C26_json_compare_antisymmetric : forall a b, compare_json b a = CompOpp (compare_json a b).
+Proof. exact compare_json_total. Qed.
+Print Assumptions C26_json_compare_antisymmetric.
+
+Theorem C26_json_compare_transitive :
+  forall a b c, compare_json a b <> Gt -> compare_json b c <> Gt -> compare_json a c <> Gt.
+Proof. exact compare_json_trans. Qed.
+Print Assumptions C26_json_compare_transitive.
+
+Theorem C26_json_compare_equal_iff : forall a b, compare_json a b = Eq <-> sort_bytewise a = sort_bytewise b.
+Proof. exact compare_json_eq_iff. Qed.
+Print Assumptions C26_json_compare_equal_iff.
 
 Example C26_nonvacuous :
   compare (CInt I8) (CV (SI 300)) (CV (SI 400)) = -1 /\
